@@ -40,7 +40,10 @@ def gen_strings(ctx):
     else:
         for _ in range(4000 * (1 + 4 * ctx.level)):
             out.append(("rand14-4..8", "".join(rng.choice(ALPHA14) for _ in range(rng.randrange(4, 9)))))
-    uni = ALPHA14 + ["é", "€", "\U0001F600", "\t", "3", "A", "B", "5", "=", "'", "\x00", "\x7f", "\u2028", "x" * 80]
+    uni = ALPHA14 + ["é", "€", "\U0001F600", "\t", "3", "A", "B", "5", "=", "'", "\x00", "\x7f", "\u2028", "x" * 80, "\ufeff", "\x85"]
+    for _ in range(300 if not ctx.big else 3000):
+        # a special code point at every kind of alignment with the 75-octet fold boundary
+        out.append(("fold-align", "é" * rng.randrange(0, 3) + "x" * rng.randrange(50, 80) + rng.choice(["\ufeff", "\u2028", "€", "\U0001F600"]) + "yz"))
     for _ in range(20000 if ctx.big else 1500 * (1 + 4 * ctx.level)):
         out.append(("random-long", "".join(rng.choice(uni) for _ in range(rng.randrange(0, 60)))))
     # corpus: finding witnesses first in the evidence
